@@ -675,6 +675,30 @@ def run(pid, drop=()):
         failed = z3.And(z3.Not(t.isnone), z3.Not(t.value))
         return z3.Implies(to_b(res), z3.Not(failed))
 
+    _itm = spec(modifies=STEP_MOD + ['loc:self.system.dae.*'], returns=TBool(), ensures=[itm_step_post], name='TDS.itm_step')
+
+    def itm_step_recorded(ex, st, args, kw, node):
+        r = _itm(ex, st, args, kw, node)
+        st.ghost['status'] = r
+        return r
+
+    def snap_time(v):
+        v.st.ghost['t_head'] = v.z('self.system.dae.t')
+        v.st.ghost['h_head'] = v.z('self.h')
+        v.st.ghost['status'] = None
+        v.st.ghost['in_iter'] = True
+        return True
+
+    def time_bookkeeping(v):
+        # dae.t - h is the time of the last accepted state: an accepted step moves it to the time just integrated to, a rejected step
+        # leaves it where it was (the retried step starts from the same instant with the new h)
+        g = v.st.ghost
+        if not g.get('in_iter') or g.get('status') is None:
+            return True
+        stt = g['status']
+        stt = stt if z3.is_expr(stt) else z3.BoolVal(bool(stt))
+        return (v.z('self.system.dae.t') - v.z('self.h')) == z3.If(stt, g['t_head'], g['t_head'] - g['h_head'])
+
     return Contract(
         F, 'TDS.run', pid=pid, params={'self': TObj(), 'no_summary': TBool(), 'from_csv': TConst(None)}, schema=sch,
         requires=[('no-csv-replay', lambda v: v.isnone('self.data_csv')),
@@ -711,8 +735,7 @@ def run(pid, drop=()):
             'time.time': spec(returns=TReal(), name='time.time'), 'time.sleep': spec(name='time.sleep'),
             'self.system.dae.write_lst': spec(name='DAE.write_lst'),
             'elapsed': spec(returns=(NR(z3.Real('t_elapsed')), 'elapsed-str'), name='elapsed'),
-            'self.itm_step': spec(modifies=STEP_MOD + ['loc:self.system.dae.*'], returns=TBool(), ensures=[itm_step_post],
-                                  name='TDS.itm_step'),
+            'self.itm_step': itm_step_recorded,
             'self._csv_step': spec(returns=TBool(), name='TDS._csv_step'),
             'self.call_stats.append': spec(name='call_stats.append'),
             'self.system.dae.store': store_h,
@@ -731,7 +754,9 @@ def run(pid, drop=()):
                   'sys': __import__('pyvc.symval', fromlist=['Module']).Module('sys')},
         loops={0: Loop(inv=[('time/event/step-size-invariant', loop_inv), ('dispatch-count-bounded-by-index', fired_inv),
                             ('exit-code-never-decreases',
-                             lambda v: v.z('self.system.exit_code') >= v.ex.old.load('self.system.exit_code'))],
+                             lambda v: v.z('self.system.exit_code') >= v.ex.old.load('self.system.exit_code')),
+                            ('t-h-is-the-time-of-the-last-accepted-state(accepted:moves-on;rejected:stays)', time_bookkeeping)],
+                       assume=[('snapshot-of-time-and-step', snap_time)],
                        frame=['self.*', 'self.system.dae.*', 'loc:self.system.dae.*', 'self.system.exit_code',
                               '$step_status', '$perc', '$perc_diff', '$rt_end', '$t_overrun']),
                1: Loop(inv=[], frame=[])},
